@@ -10,11 +10,14 @@ TraceLog == ndJsonDeserialize(IOEnv.TRACE_FILE)
 VARIABLE tid
 R(t) == TraceLog[t]
 C(t) == R(t).c
-ExpReq(t)  == Wrap(R(t).fam, Request(C(t)))
-ExpResp(t) == Wrap(R(t).fam, Response(C(t)))
+ExpReq(t)  == Wrap(R(t).fam, ReqHdr(C(t)), Request(C(t)))
+ExpResp(t) == Wrap(R(t).fam, RespHdr(C(t)), Response(C(t)))
 ReqIsSpec(t)  == SameDoc(R(t).obs.req, ExpReq(t))
 Delivered(t)  == R(t).obs.ncalls = 1 /\ NormArgs(C(t), R(t).obs.args) = NormArgs(C(t), C(t).vals)
 RespIsSpec(t) == SameDoc(R(t).obs.resp, ExpResp(t))
+\* request headers reach user code (ctx.in_header), one value per declared header
+HeadersDelivered(t) == "inh" \notin DOMAIN R(t).obs \/
+    [k \in 1..Len(C(t).inh) |-> Norm(C(t).inh[k], R(t).obs.inh[k])] = [k \in 1..Len(C(t).inh) |-> Norm(C(t).inh[k], C(t).inhvals[k])]
 RetNorm(c, vs) == [k \in 1..Len(c.rets) |-> Norm(c.rets[k], vs[k])]
 \* a reader that maps an EMPTY element to "nothing" (zeep) cannot tell an object without members from nil
 RECURSIVE Hollow(_)
@@ -31,6 +34,7 @@ ZeepDelivered(t) == "zeepargs" \notin DOMAIN R(t).obs \/
      [k \in 1..Len(C(t).args) |-> Loose(NormArgs(C(t), R(t).obs.zeepargs)[k])] = [k \in 1..Len(C(t).args) |-> Loose(NormArgs(C(t), C(t).vals)[k])]
 Fails(t) == (IF ReqIsSpec(t) THEN {} ELSE {"ReqIsSpec"}) \cup (IF Delivered(t) THEN {} ELSE {"Delivered"})
             \cup (IF RespIsSpec(t) THEN {} ELSE {"RespIsSpec"})
+            \cup (IF HeadersDelivered(t) THEN {} ELSE {"HeadersDelivered"})
             \cup (IF Decoded(t, "client") THEN {} ELSE {"ClientDecodes"}) \cup (IF Decoded(t, "zeep") THEN {} ELSE {"ZeepDecodes"})
             \cup (IF ZeepDelivered(t) THEN {} ELSE {"ZeepRequestDelivered"})
 Where(t) == IF ~RespIsSpec(t) THEN <<"resp", LCP(ExpResp(t), R(t).obs.resp) + 1,
